@@ -215,6 +215,13 @@ def make_network(rng, sym, static, dtype, keep, pending):
         else:
             tens.append(gen.rand_array(rng, sym, indices=idxs[t], fermi=True, static=static, dtype=dtype, keep=keep,
                                        pending=pending, label=labels[t], parity=rng.choice([0, 1, 1, None])))
+        if not tens[-1].parity and rng.random() < 0.4:
+            # an EVEN tensor constructed with a label given as a FermionicOperator object: even tensors carry no label
+            import symmray as sr
+            x_ = tens[-1]
+            kw_ = {} if type(x_).__name__ != "FermionicArray" else {"symmetry": x_.symmetry}
+            tens[-1] = type(x_)(indices=x_.indices, charge=x_.charge, blocks=dict(x_.blocks), phases=dict(x_.phases),
+                                oddpos=sr.FermionicOperator(labels[t]), **kw_)
     return shape, tens, legs
 
 
